@@ -516,6 +516,101 @@ def _search_loops(fn):
 _CACHE = {}
 
 
+_SIMPLE_PURE = {'min', 'max', 'abs', 'float', 'int', 'len', 'bool', 'round'}
+
+
+def _simple_arg(e) -> bool:
+    """an argument that may be evaluated anywhere, any number of times: names, constants, attribute / subscript chains
+    over them, arithmetic of those"""
+    if isinstance(e, (ast.Name, ast.Constant)):
+        return True
+    if isinstance(e, ast.Attribute):
+        return _simple_arg(e.value)
+    if isinstance(e, ast.Subscript):
+        return _simple_arg(e.value) and _simple_arg(e.slice)
+    if isinstance(e, ast.BinOp):
+        return _simple_arg(e.left) and _simple_arg(e.right)
+    if isinstance(e, ast.UnaryOp):
+        return _simple_arg(e.operand)
+    return False
+
+
+def expression_of(fn: ast.FunctionDef):
+    """(parameter names, expression) when the function only returns a call-free expression of its parameters (and of
+    attributes of `self`); None otherwise"""
+    a = fn.args
+    if a.vararg or a.kwarg or a.kwonlyargs or a.posonlyargs:
+        return None
+    body = [s_ for s_ in fn.body if not (isinstance(s_, ast.Expr) and isinstance(s_.value, ast.Constant))]
+    if len(body) != 1 or not isinstance(body[0], ast.Return) or body[0].value is None:
+        return None
+    e = body[0].value
+    for n in ast.walk(e):
+        if isinstance(n, (ast.Yield, ast.YieldFrom, ast.Await, ast.Lambda, ast.NamedExpr, ast.ListComp, ast.SetComp, ast.DictComp,
+                          ast.GeneratorExp, ast.IfExp, ast.BoolOp)):
+            return None
+        if isinstance(n, ast.Call) and not (isinstance(n.func, ast.Name) and n.func.id in _SIMPLE_PURE):
+            return None
+    if any(d is not None and not isinstance(d, ast.Constant) for d in a.defaults):
+        return None
+    return [x.arg for x in a.args], e, list(a.defaults)
+
+
+class _InlineExprHelpers(ast.NodeTransformer):
+    """N18: a call of a private helper that only returns an expression of its arguments is that expression"""
+
+    def __init__(self, resolver):
+        self.resolver = resolver
+        self.changed = False
+
+    def visit_Call(self, node):
+        self.generic_visit(node)
+        r = self.resolver(node)
+        if r is None:
+            return node
+        params, expr, defaults, skip_self = r
+        if skip_self and params and params[0] in ('self', 'cls'):
+            params = params[1:]
+        if any(k.arg is None for k in node.keywords) or any(isinstance(x, ast.Starred) for x in node.args):
+            return node
+        if len(node.args) > len(params):
+            return node
+        binding = {}
+        for p_, a_ in zip(params, node.args):
+            binding[p_] = a_
+        for k in node.keywords:
+            if k.arg not in params or k.arg in binding:
+                return node
+            binding[k.arg] = k.value
+        dmap = dict(zip(params[len(params) - len(defaults):], defaults)) if defaults else {}
+        for p_ in params:
+            if p_ not in binding:
+                if p_ not in dmap:
+                    return node
+                binding[p_] = dmap[p_]
+        if not all(_simple_arg(v) for v in binding.values()):
+            return node
+
+        class _Sub(ast.NodeTransformer):
+            def visit_Name(self_, n):
+                if isinstance(n.ctx, ast.Load) and n.id in binding:
+                    return copy.deepcopy(binding[n.id])
+                return n
+        out = _Sub().visit(copy.deepcopy(expr))
+        self.changed = True
+        return ast.copy_location(out, node)
+
+
+def inline_expression_helpers(fn: ast.FunctionDef, resolver) -> ast.FunctionDef:
+    fn2 = copy.deepcopy(fn)
+    t = _InlineExprHelpers(resolver)
+    fn2.body = [t.visit(s_) for s_ in fn2.body]
+    if not t.changed:
+        return fn
+    ast.fix_missing_locations(fn2)
+    return fn2
+
+
 def normalized(fn: ast.FunctionDef) -> ast.FunctionDef:
     k = id(fn)
     if k not in _CACHE:
